@@ -40,12 +40,19 @@ func TestVerifC07(t *testing.T) {
 	defer out.Close()
 	c07Pauser = newVFPauser(250 * time.Microsecond)
 	defer c07Pauser.stop()
+	hangs := 0
 	for i, raw := range vReadCases(t) {
 		var c c07Case
 		if err := json.Unmarshal(raw, &c); err != nil {
 			t.Fatal(err)
 		}
 		res := map[string]any{"i": i}
+		if hangs >= 2 {
+			// every hung history costs c07HangLimit of real time; two concrete ones are reported, the rest is not run
+			res["skipped"] = true
+			out.Emit(res)
+			continue
+		}
 		// the history runs in its own goroutine under a REAL-time limit: a goroutine that waits for a sync.Mutex whose
 		// holder sleeps on the fake clock (or that spins) is not durably blocked, so synctest neither advances the
 		// clock nor reports a deadlock, and the bubble would sit there until go test's own timeout
@@ -70,6 +77,7 @@ func TestVerifC07(t *testing.T) {
 		}
 		lim.Stop()
 		if hung {
+			hangs++
 			// the bubble is abandoned (its goroutines stay parked); res may still be referenced by it
 			res = map[string]any{"i": i, "ok": false, "hang": true,
 				"why": fmt.Sprintf("the history did not finish within %v of real time: some goroutine of the session manager waits for a lock "+
@@ -95,7 +103,7 @@ func TestVerifC07(t *testing.T) {
 
 var c07Pauser *vfPauser // lives outside the bubbles
 
-const c07HangLimit = 45 * time.Second
+const c07HangLimit = 30 * time.Second
 
 func c07Run(c c07Case, res map[string]any) {
 	env := newVFEnv()
@@ -198,10 +206,13 @@ func c07Run(c c07Case, res map[string]any) {
 	synctest.Wait()
 	env.quiet()
 
-	ok, why := true, ""
+	ok, why, nfail := true, "", 0
 	fail := func(s string) {
+		nfail++
 		if ok {
 			ok, why = false, s
+		} else if nfail <= 3 {
+			why += "; " + s
 		}
 	}
 	select {
@@ -245,6 +256,7 @@ func c07Verdict(log []vfEv, timeout int64, slack int64, fail func(string)) {
 	type sk struct {
 		owner  uint32
 		dialT  int64
+		arrT   int64 // arrival of the datagram the dial belongs to (= dialT unless the hook / dial was slow)
 		closeT int64
 		acts   []int64
 	}
@@ -253,7 +265,10 @@ func c07Verdict(log []vfEv, timeout int64, slack int64, fail func(string)) {
 	lostT := int64(-1)
 	nilClose := map[string]bool{} // "sid@t" of logger.Close(sid, nil)
 	// arrival time of the latest datagram of an id: the traffic a dial belongs to.  It equals the time of the dial
-	// record unless the hook / dial was slow (the record is written when the call returns)
+	// record unless the hook / dial was slow (the record is written when the call returns).  udp.go stamps Last at
+	// the arrival only, so after a slow dial the session is swept relative to the arrival; the statement's "traffic"
+	// can be read either way for that window (arrival / the first datagram leaving through the new socket), so there
+	// the two clauses below are each evaluated with the reading that obliges less.
 	arrived := map[uint32]int64{}
 	for _, ev := range log {
 		switch ev.K {
@@ -266,7 +281,7 @@ func c07Verdict(log []vfEv, timeout int64, slack int64, fail func(string)) {
 				if !has {
 					at = ev.T
 				}
-				socks[ev.Sock] = &sk{owner: ev.Sid, dialT: ev.T, closeT: -1, acts: []int64{at}}
+				socks[ev.Sock] = &sk{owner: ev.Sid, dialT: ev.T, arrT: at, closeT: -1, acts: []int64{ev.T}}
 				cur[ev.Sid] = ev.Sock
 			}
 		case "recv":
@@ -335,6 +350,9 @@ func c07Verdict(log []vfEv, timeout int64, slack int64, fail func(string)) {
 			closedHere := s.closeT >= T && s.closeT <= T+slack && s.closeT < lostT && nilClose[fmt.Sprintf("%d@%d", s.owner, s.closeT)]
 			if T-last > timeout && !(s.closeT >= 0 && s.closeT <= T+slack) {
 				fail(fmt.Sprintf("socket %d (session %d) idle since %d ms was not closed by the sweep at %d ms (timeout %d)", k, s.owner, last, T, timeout))
+			}
+			if last == s.dialT {
+				last = s.arrT
 			}
 			if closedHere && T-last <= timeout {
 				fail(fmt.Sprintf("socket %d (session %d) active at %d ms was closed as idle by the sweep at %d ms (timeout %d)", k, s.owner, last, T, timeout))
